@@ -1,6 +1,7 @@
 """DSL -> Hdl21 objects through the public API.  style: 'proc' (Module()/add/connect),
 'class' (@h.module-like class body via type()), 'gen' (inside an @h.generator)."""
 import hdl21 as h
+from vlib import env
 from vlib.dsl import *
 
 
@@ -19,8 +20,9 @@ def build_bundle(bd: BundleDef, cache):
     return b
 
 
-def prim_params(of: Prim):
-    return dict(of.params)
+def prim_params(of):
+    """parameter values are realised before they reach pydantic-validated parameter classes (DESIGN 2/E1.1)"""
+    return {k: (env.pick(v, -16, 64) if isinstance(v, int) else env.realize(v)) for k, v in of.params.items()}
 
 
 class Builder:
@@ -38,7 +40,7 @@ class Builder:
             if id(of) not in self.ecache:
                 self.ecache[id(of)] = h.ExternalModule(
                     name=of.name, port_list=[h.Port(name=p, width=w) for p, w in of.ports], paramtype=dict)
-            return self.ecache[id(of)](dict(of.params))
+            return self.ecache[id(of)](prim_params(of))
         raise TypeError(of)
 
     def expr(self, m, e, ncs):
@@ -86,7 +88,7 @@ class Builder:
         for inst in md.insts:
             hi = m.get(inst.name)
             for port, e in inst.conns.items():
-                if e is Open:
+                if is_open(e):
                     continue
                 if self.setattr_conns:
                     setattr(hi, port, self.expr(m, e, ncs))
@@ -94,19 +96,52 @@ class Builder:
                     hi.connect(port, self.expr(m, e, ncs))
         return m
 
+    def class_body(self, md: Mod):
+        """class-style definition: the attributes are collected in a class body and handed to `h.module`;
+        connections are made by call syntax `inst(port=conn, ...)`"""
+        d = {}
+        for n, w in md.ports:
+            d[n] = h.Port(width=w)
+        for n, w in md.sigs:
+            d[n] = h.Signal(width=w)
+        for n, bd, is_port in md.buns:
+            d[n] = h.BundleInstance(of=build_bundle(bd, self.bcache), port=is_port)
+        for inst in md.insts:
+            t = self.target(inst.of)
+            if inst.kind == "inst":
+                d[inst.name] = h.Instance(of=t)
+            elif inst.kind == "array":
+                d[inst.name] = h.InstanceArray(of=t, n=inst.n)
+            elif inst.kind == "pair":
+                d[inst.name] = h.Pair(of=t)
+
+        class _Ns:  # name lookup for `expr` before the module exists
+            def get(self_, name):
+                return d[name]
+
+        ncs = {}
+        for inst in md.insts:
+            conns = {port: self.expr(_Ns(), e, ncs) for port, e in inst.conns.items() if not is_open(e)}
+            if conns:
+                d[inst.name](**conns)
+        cls = type(env.realize(md.name), (), {})
+        for k, v in d.items():
+            setattr(cls, k, v)
+        return h.module(cls)
+
     def bmod(self, md: Mod):
         if id(md) in self.mcache:
             return self.mcache[id(md)]
         if self.style == "gen":
             builder = self
 
-            @h.generator
-            def Gen(params: h.HasNoParams) -> h.Module:
+            def genfunc(params: h.HasNoParams) -> h.Module:
                 return builder.fill(h.Module(), md)
 
-            Gen.name = md.name  # readable, unique per DSL module
-            Gen.func.__name__ = md.name
-            m = Gen()
+            genfunc.__name__ = genfunc.__qualname__ = md.name  # the generated module takes the generator's name
+            m = h.generator(genfunc)()
+        elif self.style == "class":
+            m = self.class_body(md)
         else:
             m = self.fill(h.Module(name=md.name), md)
         self.mcache[id(md)] = m
